@@ -57,11 +57,12 @@ Proof. exact (fun A => @concat_split A). Qed.
 Theorem C07_last_applied_tracks :
   forall (payload M : Type)
          (build : list (string * string) -> prep -> ctor -> list (string * string) -> payload -> M)
-         (decodable : payload -> bool)
+         (decodable handler_ok : payload -> bool)
          (entries : list (N * req payload)) (batching : list nat) (am : apply_mgr),
     entries <> [] -> forallb (prep_ok payload decodable) (map snd entries) = true ->
+    forallb (fun r => handler_ok (q_payload r)) (map snd entries) = true ->
     let idx := last_index payload entries (am_last am) in
-    let al := leader_applied payload M build decodable entries am in
+    let al := leader_applied payload M build decodable handler_ok entries am in
     let af := follower_applied payload M build decodable (split batching entries) am in
     am_last al = idx /\ last (am_saved al) 0%N = idx /\
     am_last af = idx /\ last (am_saved af) 0%N = idx.
